@@ -337,3 +337,15 @@ def build(sess):
                         'every read forked {blank, text, raises}; all other request methods are verified modularly against '
                         'the command/query contracts. KF-C05-1 (exempt names rb/r/bl swallow exceptions) is excluded by region '
                         'only while its witness still reproduces.')
+
+
+def fallback(sess):
+    out = []
+    for m in ('command', 'query', 'query_statusbyte'):
+        r = native('n_serial', 'search_request', {'method': m})
+        r['what'] = f'n_serial.search_request[{m}]'
+        out.append(r)
+    r = native('n_serial', 'search_callers', {})
+    r['what'] = 'n_serial.search_callers'
+    out.append(r)
+    return out
